@@ -1,8 +1,24 @@
-import Pun.Model.Proto
+import Pun.Model.Dss
+import Pun.Gen.GridGen
 namespace Pun.Drv.C08
-open Pun
+open Pun Pun.Dss
+
+def showPB : Except Err PB → String
+  | .ok P => s!"ok {showList P.left} {showList P.right}"
+  | .error e => s!"err {e}"
+
+def parseW (s : String) : Option (Option (List Rat)) :=
+  if s == "none" then some none else (parseList s).map some
 
 def handle : List String → String
+  | ["stack", lo, hi, w] =>
+    match parseList lo, parseList hi, parseW w with
+    | some lo, some hi, some w => showPB (stacking Gen.pValues lo hi w)
+    | _, _, _ => "bad-op"
+  | ["rt", l, r] =>
+    match parseList l, parseList r with
+    | some l, some r => showPB (roundtrip Gen.pValues Gen.steps ⟨l, r⟩)
+    | _, _ => "bad-op"
   | _ => "bad-op"
 
 end Pun.Drv.C08
